@@ -649,4 +649,85 @@ example : demoInput.storage.WellFormed := by
   · decide
   · intro c hc; cases hc; decide
 
+/-- "already integral" is a statement about the values, not the chunks: on a
+well-formed stored layer the integrality test used by `_validate_h5ad` answers
+`true` iff every stored value is within `eps` of an integer. -/
+theorem integrality_verdict {eps : Rat} (h0 : 0 ≤ eps) {st : Storage} (hw : st.WellFormed) :
+    isIntegersChunked eps st.readChunks = true ↔
+      ∀ v ∈ st.values, absRat ((roundHalfEven v : Rat) - v) ≤ eps := by
+  rw [isIntegersChunked_iff h0]
+  constructor
+  · intro hc v hv
+    obtain ⟨ch, hch, hvc⟩ := List.mem_flatten.1 ((readChunks_mem hw v).2 hv)
+    exact hc ch hch v hvc
+  · intro hc ch hch v hv
+    exact hc v ((readChunks_mem hw v).1 (List.mem_flatten.2 ⟨ch, hch, hv⟩))
+
+example : isIntegersChunked (1/1000) demoInput.storage.readChunks = false ∧
+    isIntegersChunked (1/1000) (Storage.sparse [3, 0, 70000, 2] (some 3)).readChunks = true := by
+  decide +kernel
+
+/-- How far the comparison in a floating-point type can go wrong (any comparison
+mode, float32 / float64 / integer bounds): the chosen rung contains every
+rounded value between the bounds except possibly the single value one above
+its upper limit (a power of two that the limit was rounded up to). -/
+theorem dtype_float_off_by_one (mode : CompareMode) {fb : Option Nat}
+    (hfb : fb = none ∨ fb = some 24 ∨ fb = some 53) {r : Rung} {mn mx v : Rat}
+    (h : Generated.intLadder.find?
+      (rungAcceptsMode mode fb (roundHalfEven mn) (roundHalfEven mx)) = some r)
+    (h1 : mn ≤ v) (h2 : v ≤ mx) :
+    castTo r v = (if roundHalfEven v = r.2.2 + 1 then none else some (roundHalfEven v)) ∧
+    r.2.1 ≤ roundHalfEven v ∧ roundHalfEven v ≤ r.2.2 + 1 :=
+  find_fits_mode mode hfb h h1 h2
+
+example : Generated.intLadder.find? (rungAcceptsMode .native (some 24) (roundHalfEven 0)
+    (roundHalfEven 4294967296)) = some ("uint32", 0, 4294967295) := by decide +kernel
+
+/-- The complete statement for `_validate_h5ad` as the source is (any comparison
+mode, float32 / float64 / integer data): for a well-formed stored layer whose
+rounded values all fit uint64 or all fit int64, whenever an integer type is
+imposed it is a rung of the ladder, and every entry of the new X is the rounded
+original entry, except the entries whose rounded value is exactly one above the
+upper limit of that type, which do not fit. -/
+theorem cast_at_most_one_over {placeholder : Nat → Name} {inp : Input} {plan : Plan} {d : String}
+    (h : validate placeholder inp = .ok plan) (hd : plan.dtype = some d)
+    (hfb : inp.floatBits = none ∨ inp.floatBits = some 24 ∨ inp.floatBits = some 53)
+    (hw : inp.storage.WellFormed)
+    (hr : (∀ v ∈ inp.storage.values, 0 ≤ roundHalfEven v ∧ roundHalfEven v ≤ 18446744073709551615) ∨
+      (∀ v ∈ inp.storage.values,
+        -9223372036854775808 ≤ roundHalfEven v ∧ roundHalfEven v ≤ 9223372036854775807)) :
+    ∃ rung ∈ Generated.intLadder, rung.1 = d ∧
+      plan.values = inp.storage.values.map (fun v =>
+        if roundHalfEven v = rung.2.2 + 1 then none else some (roundHalfEven v : Rat)) := by
+  obtain ⟨_, _, _, mv, k, mn, mx, _, hmu, _, _, _, hpv, hdt, _⟩ := validate_ok_inv h
+  rw [hdt] at hd
+  split at hd
+  next hcn =>
+    have hmm : inp.storage.minmax = .ok (some (mn, mx)) := by
+      rw [← hmu]; unfold minmaxUsed; simp [hcn]
+    obtain ⟨hb, hrg⟩ := storage_minmax_range hw hmm
+    have hrange : (0 ≤ roundHalfEven mn ∧ roundHalfEven mx ≤ 18446744073709551615) ∨
+        (-9223372036854775808 ≤ roundHalfEven mn ∧ roundHalfEven mx ≤ 9223372036854775807) := by
+      rcases hr with hr | hr
+      · exact Or.inl (hrg _ _ (by omega) (by omega) hr)
+      · exact Or.inr (hrg _ _ (by omega) (by omega) hr)
+    obtain ⟨r, hfind⟩ := ladder_exists_mode sourceMode hfb _ _ hrange
+    have hch : chooseIntDtype inp.floatBits mn mx = r := by
+      rw [chooseIntDtype_eq_mode]; unfold chooseIntDtypeMode; rw [hfind]
+    refine ⟨r, List.mem_of_find?_eq_some hfind, ?_, ?_⟩
+    · rw [← hch]; exact Option.some.inj hd
+    · rw [hpv, if_pos hcn, hch]
+      apply List.map_congr_left
+      intro v hvm
+      rw [(find_fits_mode sourceMode hfb hfind (hb v hvm).1 (hb v hvm).2).1]
+      split <;> rfl
+  next => cases hd
+
+/-- float32 data with maximum 2^32 under the comparison in float32: uint32 is
+imposed and the maximum does not fit (the one entry that is lost) -/
+example : chooseIntDtypeMode .native (some 24) (1/2) 4294967296 = ("uint32", 0, 4294967295) ∧
+    [1/2, 4294967296, 7].map (fun v => (castTo ("uint32", 0, 4294967295) v).map (fun i : Int => (i : Rat))) =
+      [some 0, none, some 7] := by
+  decide +kernel
+
 end CTM.C16
